@@ -343,6 +343,8 @@ def run(ctx):
     ctx.log("real gthread run(): bodies sent after their heads on one kept-alive connection: %d failures" % len(rf))
     for f in rf[:2]:
         ctx.violation("real gthread worker: " + f, {"kind": "c07-real-gthread"})
+    import lib_battery
+    lib_battery.report(ctx, "bodies", "battery")
     bad = ctx.correspond("body", lp.HEADER, model_cases, shard=60)
     if bad:
         i, m, im = bad[0]
@@ -365,6 +367,9 @@ def run(ctx):
 
 
 def replay(rep):
+    if rep.get("kind") == "battery":
+        import lib_battery
+        return lib_battery.replay(rep)
     if rep.get("kind") == "c07-real-gthread":
         fs = real_gthread_bodies()
         print("failures:", fs)
